@@ -865,7 +865,11 @@ func (g *pgen) dense(maxN int) *PDense {
 		d.KV = []int64{}
 		for i := 0; i < n; i++ {
 			for t := r.Intn(3); t > 0; t-- {
-				d.KV = append(d.KV, g.sid(g.str())+0, g.sid(g.str()))
+				k := g.str()
+				for k == "" {
+					k = g.str() // string 0 is the delimiter: a tag key is never the empty string
+				}
+				d.KV = append(d.KV, g.sid(k), g.sid(g.str()))
 			}
 			d.KV = append(d.KV, 0)
 		}
